@@ -97,6 +97,8 @@ def history_worker(case):
                 # outer parse whose inline Python starts an inner parse of the same module
                 g2 = step[1]
                 out.append(one('Outer', g2, 0, True))
+            elif kind == 'nested2':
+                out.append(one('Outer2', step[1], 0, True))
     finally:
         rt.enable(False)
         events = rt.drain()
@@ -128,7 +130,11 @@ def run(chk):
 
     rng = random.Random(chk.seed * 7919 + 18)
     g = grammar()
-    desc = PRELUDE + render.grammar(g) + 'Outer = /[ab,=]+/ |> `lambda s: [s, _vnested(s.split(",")[0].split("=")[0])]`\n'
+    desc = (PRELUDE + render.grammar(g)
+            + 'Outer = /[ab,=]+/ |> `lambda s: [s, _vnested(s.split(",")[0].split("=")[0])]`\n'
+            # the nested parse happens in the first alternative; the second one asks for the same rules again
+            + 'Outer2 = [Word, Nest, "!"] | [Word, Nest, "?"]\n'
+            + 'Nest = "=" >> (Word |> `lambda s: _vnested(s)`)\n')
     words = ['a', 'b', 'ab', 'bb', 'ba', 'abb', 'bb', 'aab']
     texts = []
     for _ in range(60 if chk.tier == 'quick' else 400):
@@ -159,13 +165,15 @@ def run(chk):
         for (e, t, p) in order[: 40]:
             steps.append(['parse', e, t, p])
             if rng.random() < 0.1:
-                steps.append(['compile', rng.choice([other, ext, reuse])])
+                steps.append(['compile', rng.choice([other, ext, reuse]) if h % 2 else other])
         tcalls = [rng.choice(calls) for _ in range(8)]
         steps.append(['threads', [[e, t, p] for (e, t, p) in tcalls], 20])
         for (e, t, p) in order[40: 60]:
             steps.append(['parse', e, t, p])
         steps.append(['nested', 'ab=ba,b'])
         steps.append(['nested', 'bb,a'])
+        steps.append(['nested2', 'ab=ba?'])
+        steps.append(['nested2', 'a=b!'])
         hist_cases.append({'id': h, 'desc': named if h % 2 else desc, 'steps': steps, 'trace': True,
                            'installed': ['vg_c18', 'vg_c18_child']})
     recs = engine.run_real(hist_cases, fn='history_worker', hooks=True, batch=1)
@@ -202,6 +210,14 @@ def run(chk):
             elif step[0] == 'compile':
                 if o[0] != 'compiled':
                     chk.notes.setdefault('compile_problems', []).append(o)
+            elif step[0] == 'nested2':
+                t = step[1]
+                w1, w2 = t[:-1].split('=')
+                want = ['ok', ['l', [['s', T(w1)], ['s', T(w2)], ['s', T(t[-1])]]], len(t)]
+                chk.count(['nested2', t], True)
+                if o[:3] != want:
+                    chk.violation('nested parse inside an abandoned alternative: expected %s, observed %s' % (want, o),
+                                  {'text': t, 'observed': o})
             elif step[0] == 'nested':
                 t = step[1]
                 inner = t.split(',')[0].split('=')[0]
